@@ -261,6 +261,13 @@ theorem opBuf_inv (s : L) (k : Char) (n : Nat) (hi : Ledger.Inv s) : Ledger.Inv 
       simp only [hf, Bool.false_eq_true, if_false]
       exact inv_of_same ha hi
   · exact hi
+  · -- adopt a caller-allocated block: one more live block, owned by the buffer (size 0 is refused)
+    rename_i hbuf
+    by_cases hn : n = 0
+    · simp only [hn, if_true]; exact hi
+    · simp only [hn, if_false]
+      apply inv_buf s _ hi 1 <;> simp [hbuf, bufN]
+  · exact hi
   · -- view over caller memory: no block, nothing owned
     rename_i hbuf
     apply inv_buf s _ hi 0 <;> simp [hbuf, bufN, Buf.view]
